@@ -60,7 +60,12 @@ impl Number for i32 {
         lhs.checked_add(rhs)
     }
     fn checked_mul(lhs: Self, rhs: i32) -> Option<Self> {
-        lhs.checked_mul(rhs)
+        // TeX.2021.105 (mult_integers): the largest magnitude TeX allows for an
+        // integer is 2^31-1, so a product of exactly -2^31 is also an overflow.
+        match lhs.checked_mul(rhs) {
+            None | Some(i32::MIN) => None,
+            Some(product) => Some(product),
+        }
     }
     fn wrapping_mul(lhs: Self, rhs: i32) -> Self {
         lhs.wrapping_mul(rhs)
